@@ -172,6 +172,10 @@ def sort(ty):
         d.declare("none_" + _sanitize(n))
         d.declare("some_" + _sanitize(n), ("val_" + _sanitize(n), sort(ty.t)))
         s = d.create()
+    elif isinstance(ty, TList) and isinstance(ty.t, TTerm):
+        from . import termadt
+        termadt._build()          # List[Term] is declared together with Term (mutual recursion)
+        return _cache[n]
     elif isinstance(ty, TList):
         d = z3.Datatype(_sanitize(n))
         d.declare("mk_" + _sanitize(n), ("len_" + _sanitize(n), z3.IntSort()),
